@@ -10,7 +10,7 @@ from ..model import lexref
 from . import lexcommon
 
 TOKEN_ALPHABET = ["(", ")", "{", "}", "[", "]", ";", ",", "=", "*", "#", ":", "?", '"', "'", "\\", "ident", "42", "if", "else",
-                  "while", "return", "int", "struct", "elif", "endif"]
+                  "while", "return", "int", "struct", "elif", "endif", "NULL"]
 RUN_CLASSES = {"unmatched": "@", "hash": "#", "splice": "\\\n", "dquote": '"', "squote": "'", "lparen": "(", "backslash": "\\",
                "star": "*", "lbrace": "{", "digit": "1", "zero": "0", "nine": "9", "letter": "a", "dot": ".", "exp": "e", "hexx": "x",
                "space": " ", "tab": "\t", "newline": "\n", "semicolon": ";", "slash": "/", "minus": "-", "plus": "+", "question": "?",
@@ -163,7 +163,16 @@ def seed_task(task):
             if not base.endswith("\n"):
                 judge(base + "\n", "prefix+nl", i)
         return n, out
-    idx = [i for i in range(start, len(toks)) if toks[i].type not in ("SPACE", "TAB")][::stride]
+    nonblank = [i for i in range(start, len(toks)) if toks[i].type not in ("SPACE", "TAB")]
+    idx = nonblank[::stride]
+    # the argument of a preprocessor directive is always an edit position, whatever the stride (one token decides
+    # what the whole line means to the guard / macro bookkeeping)
+    words = ("ifndef", "ifdef", "define", "undef", "include", "elif", "pragma", "error")
+    for a, b in zip(nonblank, nonblank[1:]):
+        if (toks[a].type == "IDENTIFIER" and toks[a].value in words) or toks[a].type == "IF":
+            if b not in idx:
+                idx.append(b)
+    idx.sort()
     full_idx = idx
     idx = idx[part::nparts]
     for i in idx:
